@@ -225,10 +225,10 @@ def discharge(ctx: Ctx, ob: Obligation, use_cvc5_always=False, cheap=False) -> d
         return rec
     s.add(z3.Not(ob.goal))
     r = guarded_check(s, ctx.timeout_ms if not cheap else min(ctx.timeout_ms, 3000))
-    if r == z3.unknown and "incomplete" in s.reason_unknown():
+    if r == z3.unknown and "incomplete" in s.reason_unknown() and not cheap:
         # z3 gave up without exhausting its budget (E-matching found no contradiction under this instantiation order):
         # small portfolio of random seeds; `unsat` from any run is a proof
-        for seed in range(1, 9):
+        for seed in range(1, 5):
             s2 = _mk_solver(ctx, ctx.timeout_ms)
             s2.set("random_seed", seed)
             s2.set("smt.random_seed", seed)
@@ -249,7 +249,7 @@ def discharge(ctx: Ctx, ob: Obligation, use_cvc5_always=False, cheap=False) -> d
             rec["reason_unknown"] = s.reason_unknown()
     verdict = str(r)
     if verdict == "unknown" or use_cvc5_always:
-        r2 = cvc5_check(s.to_smt2(), max(2, ctx.timeout_ms // 1000))
+        r2 = cvc5_check(s.to_smt2(), max(2, (ctx.timeout_ms if not cheap else 3000) // 1000))
         if verdict == "unknown" and r2 in ("sat", "unsat"):
             verdict = r2
             rec["backend"] = "cvc5-1.0.3(cli)"
@@ -533,6 +533,9 @@ def extract_model(ctx: Ctx, model, inputs: dict, max_len=6) -> dict:
 
 
 # ---------------------------------------------------------------------------------------------
+FAILURE_BUDGET_S = 100.0
+
+
 def run_unit(uid: str, known_findings: dict, timeout_ms: int, both_solvers=False) -> dict:
     """executed in a worker process: symbolic execution + discharge of one unit; returns a JSON-able record"""
     u = UNITS[uid]
@@ -553,11 +556,14 @@ def run_unit(uid: str, known_findings: dict, timeout_ms: int, both_solvers=False
         rec["functions"] = {k: {"file": v[0], "line": v[1]} for k, v in ctx.ex.functions_seen.items()}
         rec["obligations"] = []
         open_families: dict[str, int] = {}
+        spent_on_failures = 0.0  # seconds; once a unit has burnt its budget on failing obligations the rest go cheap
         for ob in ctx.obligations:
             fam = ob.name.split("#")[0]
-            r = discharge(ctx, ob, both_solvers, cheap=open_families.get(fam, 0) >= 2)
+            t1 = time.time()
+            r = discharge(ctx, ob, both_solvers, cheap=open_families.get(fam, 0) >= 2 or spent_on_failures > FAILURE_BUDGET_S)
             if r["verdict"] not in ("discharged", "reachable"):
                 open_families[fam] = open_families.get(fam, 0) + 1
+                spent_on_failures += time.time() - t1
             rec["obligations"].append(r)
         rec["samples"] = [sample_smt2(ctx, ob, 2500) for ob in ctx.obligations[:1] if ob.kind not in ("cover", "canary")]
         rec["assumptions"] = ctx.assumptions
